@@ -162,6 +162,12 @@ def laws(stats: Stats, toks, rng, origin):
         r = p.join("/x/y")
         if str(r) != "/x/y" or r != JSONPointer("/x/y"):
             stats.fail("join:slash-replaces", case, "%r.join('/x/y') = %r" % (text, str(r)))
+        for part, toks2 in (("//x", ["", "x"]), ("//", ["", ""]), ("///y", ["", "", "y"]), ("/a//b", ["a", "", "b"]), ("/", [""])):
+            r3 = p.join(part)
+            r4 = p / part
+            if str(r3) != part or str(r4) != part or r3 != JSONPointer.from_parts(toks2) or r4 != JSONPointer(part):
+                stats.fail("join:absolute-part-with-empty-token", dict(case, join=part), "%r joined with %r gives %r / %r, expected the pointer %r (tokens %r)" % (
+                    text, part, str(r3), str(r4), part, toks2))
         r2 = p / "u/v"
         if str(r2) != text + "/u/v" or str(r2.parent().parent()) != text:
             stats.fail("join:two-tokens", case, "%r / 'u/v' = %r" % (text, str(r2)))
@@ -272,6 +278,12 @@ class PointerMachine(RuleBasedStateMachine):
         self.hist.append(["from_parts"])
         self.p = JSONPointer.from_parts(list(self.model))
 
+    @rule(t=st.sampled_from(ALPHA), u=st.sampled_from(ALPHA))
+    def replace_two(self, t, u):
+        self.hist.append(["replace2", t, u])
+        self.p = self.p.join("/" + P.escape(t) + "/" + P.escape(u))
+        self.model = [t, u]
+
     @rule(t=st.sampled_from(ALPHA))
     def replace(self, t):
         self.hist.append(["replace", t])
@@ -317,6 +329,8 @@ def replay_history(stats, hist):
             p = JSONPointer.from_parts(list(model))
         elif step[0] == "replace":
             p = p.join("/" + P.escape(step[1])); model = [step[1]]
+        elif step[0] == "replace2":
+            p = p.join("/" + P.escape(step[1]) + "/" + P.escape(step[2])); model = [step[1], step[2]]
         stats.ev()
         want = P.encode(model)
         if str(p) != want:
